@@ -182,7 +182,7 @@ impl AutosarModel {
         } else {
             let result = self.merge_file_data(&root_element, arxml_file.downgrade());
             if let Err(error) = result {
-                let _ = self.root_element().remove_from_file(&arxml_file);
+                let _ = self.root_element().remove_from_file_internal(&arxml_file);
                 return Err(error);
             }
         }
@@ -566,7 +566,7 @@ impl AutosarModel {
             } else {
                 drop(locked_model);
                 // other files still contribute elements, so only the elements specifically associated with this file should be removed
-                let _ = self.root_element().remove_from_file(file);
+                let _ = self.root_element().remove_from_file_internal(file);
                 // self.unmerge_file(&file.downgrade());
             }
         }
